@@ -729,16 +729,13 @@ def _composite_keystone_aperture(x, y, center_circle_diameter,
             # find the four corners; c = corner
             # because keystones are Problematic (TM), the "upper" vertex
             # may be outside the usual corners
+            # t lies in [-pi, pi]; bring the start of the arc into that range,
+            # the end may then pass +pi (by at most one arc) and wraps around
             lo = angle
-            hi = angle+arc_rad
-            while hi > 2*np.pi:
-                hi = hi - 2*np.pi
-            while lo > 2*np.pi:
-                lo = lo - 2*np.pi
+            if lo < -np.pi or lo >= np.pi:
+                lo = (lo + np.pi) % (2*np.pi) - np.pi
 
-            if hi < lo:
-                lo, hi = hi, lo
-
+            hi = lo+arc_rad
             mid = lo + arc_rad / 2
             center_angles.append(mid)
 
@@ -784,13 +781,8 @@ def _composite_keystone_aperture(x, y, center_circle_diameter,
             outer_exclude = circle(outer_radius, rr)
             arc = (inner_include ^ outer_exclude)
             ang_mask = (tt > lo) & (tt < hi)
-            if (lo < np.pi) & (hi > np.pi):
+            if hi > np.pi:
                 ang_mask |= (tt < (hi-2*np.pi))
-            elif (lo >= np.pi) & (hi > np.pi):
-                llo = lo - 2*np.pi
-                lhi = hi - 2*np.pi
-                ang_mask = (tt > llo) & (tt < lhi)
-                lo, hi = llo, lhi
 
             mask = arc & ang_mask
             primary_mask[window] |= mask
